@@ -32,7 +32,7 @@ class _Opts:
         self.max_body_part_buffer_size = v.int('max_body_part_buffer_size', 0)
         self.max_body_part_count = v.int('max_body_part_count', 0)
         self.max_body_part_headers_size = v.int('max_body_part_headers_size', 0)
-        self.default_charset = 'utf-8'
+        self.default_charset = v.str('default_charset')
         self.media_handlers = None
 
 
@@ -586,7 +586,8 @@ def _get_text(asgi):
         charset = w.params[0].seen.get('charset')
         from pyvc.core import mk_str
 
-        enc = z3.StringVal('utf-8') if charset is None else charset.t
+        dc = opts.default_charset
+        enc = (dc.t if isinstance(dc, SStr) else z3.StringVal(dc)) if charset is None else charset.t
         v.check('text-part-fits-the-buffer-limit', size <= limit)
         v.check('text-is-the-part-decoded-with-its-charset-or-the-default', Or(out.value == mk_str(_DEC(st.content.t, enc), 'str'),
                                                                               And(_is_ascii(st.content), out.value == mk_str(st.content.t, 'str'))))
@@ -698,6 +699,8 @@ KILLS = [
     (_MPF, "                if handler.exhaust_stream:\n                    self.stream.exhaust()\n", "                pass\n", 'BodyPart.get_media#stream-exhausted-exactly-once'),
     (_MPF, "            else:\n                self._filename = params.get('filename')\n", "            else:\n                self._filename = params.get('name')\n",
      'BodyPart.filename#filename-is-the-plain-parameter-or-none-without-an-extended-one'),
+    (_MPF, "        charset = options.get('charset', self._parse_options.default_charset)\n", "        charset = options.get('charset', 'utf-8')\n",
+     'BodyPart.get_text#text-is-the-part-decoded-with-its-charset-or-the-default'),
     (_AMPF, "        if content_type != 'text/plain':\n            return None\n", "        if content_type == 'text/plain':\n            return None\n",
      'asgi.multipart:BodyPart.get_text#text-is-returned-iff-the-media-type-is-text-plain'),
     (_AMPF, "            finally:\n                if handler.exhaust_stream:\n                    await self.stream.exhaust()\n", "            finally:\n                pass\n",
